@@ -184,6 +184,12 @@ def explore_unit(res, run):
                 import traceback
                 traceback.print_exc()
                 print("PC:", ctx.pc)
+        except (RecursionError, AttributeError, TypeError, ValueError, KeyError, IndexError, AssertionError, z3.Z3Exception) as ex:
+            # an engine limit surfacing as a Python error: undecided, never a violation and never a crash
+            import traceback
+            res.undecided.append((res.unit, f"engine error: {type(ex).__name__}: {ex}"[:300]))
+            if os.environ.get("KVC_DEBUG"):
+                traceback.print_exc()
         except Mismatch as ex:
             # structural mismatch: a failed obligation without a formula; refute by sampling
             ob = Obligation(f"{res.unit}/structure", ctx.pc, z3.BoolVal(False), info={"mismatch": str(ex)})
